@@ -10,6 +10,7 @@ pub struct HistCfg {
     pub refusal_bias: u64, // percent of node arguments drawn from ALL live nodes instead of suitable ones
     pub with_clonep: bool,
     pub with_rmws: bool,
+    pub rmws_pct: u64, // percent of the steps that are remove_insignificant_whitespace on any live node
 }
 
 fn kind_of(st: &Store, h: Handle) -> char {
@@ -46,6 +47,9 @@ pub fn gen_op(r: &mut Rng, st: &Store, pool: &Pool, cfg: &HistCfg) -> Op {
     let aname = *r.pick(&pool.attr_names);
     let pfx = *r.pick(&pool.prefixes);
     let uri = *r.pick(&pool.uris);
+    if cfg.with_rmws && r.chance(cfg.rmws_pct, 100) {
+        return RemoveWs(pick(r, st, &live, "DET", 35));
+    }
     match r.below(100) {
         0..=3 => NewEl(name),
         4..=7 => NewText(text(r)),
@@ -123,6 +127,7 @@ pub fn run_history(case: &str, pid: &str, seed_rng: &mut Rng, start: &[ANode], o
         };
         let before = snapshot(&st);
         let before_forest = if pid == "C05" || pid == "ALL" { Some(oforest(&st)) } else { None };
+        let c18_before = if pid == "C18" { Some(oforest(&st)) } else { None };
         let before_ser = serialisations(&st);
         let before_roots = st.roots();
         let live_before = st.live_handles();
@@ -174,6 +179,12 @@ pub fn run_history(case: &str, pid: &str, seed_rng: &mut Rng, start: &[ANode], o
                     }
                 }
                 None => stats.bump("c05.unpredicted"),
+            }
+        }
+        // ---- C18: remove_insignificant_whitespace removes exactly the insignificant whitespace; a second call changes nothing
+        if pid == "C18" {
+            if let Op::RemoveWs(h) = &op {
+                c18_oracle(case, k, *h, &op, &outcome, c18_before.as_ref().unwrap(), &mut st, out, stats);
             }
         }
         // ---- C04: validity, handle stability, is_removed for ever
@@ -267,7 +278,7 @@ pub fn main_for(pid: &str) {
         let pool = make_pool(&mut tmp.xot, &mut tmp.reg, true);
         let ntrees = 1 + r.below(3);
         let start: Vec<ANode> = (0..ntrees).map(|_| gen_tree(&mut r, &gcfg, &pool)).collect();
-        let cfg = HistCfg { steps, refusal_bias: if pid == "C06" { 45 } else { 25 }, with_clonep: false, with_rmws: false };
+        let cfg = HistCfg { steps, refusal_bias: if pid == "C06" { 45 } else { 25 }, with_clonep: false, with_rmws: false, rmws_pct: 0 };
         let case = format!("c{}", k);
         let init_cons = k % 6 != 5;
         let (tables, init, ops, obs) = run_history(&case, pid, &mut r, &start, None, &cfg, &mut out, &mut stats, init_cons);
@@ -293,7 +304,7 @@ fn replay_line(pid: &str, line: &str, out: &mut Out, stats: &mut Stats) {
     let tree_text: String = init.split(' ').skip(1).map(|t| strip_handle(t)).collect::<Vec<_>>().join(" ");
     let start = crate::treeparse::parse_anodes(&tree_text);
     let mut r = Rng::new(0);
-    let cfg = HistCfg { steps: ops.len(), refusal_bias: 0, with_clonep: false, with_rmws: false };
+    let cfg = HistCfg { steps: ops.len(), refusal_bias: 0, with_clonep: false, with_rmws: false, rmws_pct: 0 };
     let (tables, init2, ops2, obs) = run_history(case, pid, &mut r, &start, Some(ops), &cfg, out, stats, cons);
     if init2 != init {
         // the rebuilt start state does not have the recorded handles: the replay is not faithful
@@ -313,4 +324,164 @@ fn strip_handle(tok: &str) -> String {
             if tail.ends_with('(') { format!("{}(", &tok[..i]) } else { tok[..i].to_string() }
         }
     }
+}
+
+// ------------------------------------------------------------------------------------------------------------
+// C18 oracle: the property evaluated directly on the read-back, independent of the Coq model.
+
+fn xml_ws_only(s: &str) -> bool {
+    s.chars().all(|c| c == ' ' || c == '\t' || c == '\r' || c == '\n')
+}
+
+/// the text nodes the property says must go when the call is made on `target`
+fn c18_expected(f: &OForest, target: Handle) -> Vec<Handle> {
+    fn preserve_at(f: &OForest, mut n: Option<Handle>) -> bool {
+        // the innermost xml:space attribute on the ancestors-or-self decides (name index 0 = xml:space)
+        while let Some(h) = n {
+            for k in &f.nodes[&h].kids {
+                if let OVal::Attr(0, v) = &f.nodes[k].val {
+                    return v == "preserve";
+                }
+            }
+            n = f.nodes[&h].parent;
+        }
+        false
+    }
+    let mut out = vec![];
+    let mut stack = vec![target];
+    while let Some(h) = stack.pop() {
+        let n = &f.nodes[&h];
+        if let OVal::Text(t) = &n.val {
+            let sibs: Vec<Handle> = match n.parent { Some(p) => f.nodes[&p].kids.clone(), None => vec![h] };
+            let other_content = sibs.iter().any(|s| *s != h && matches!(&f.nodes[s].val, OVal::Text(x) if !xml_ws_only(x)));
+            if xml_ws_only(t) && !other_content && !preserve_at(f, n.parent) {
+                out.push(h);
+            }
+        }
+        for k in n.kids.iter().rev() {
+            stack.push(*k);
+        }
+    }
+    out
+}
+
+#[allow(clippy::too_many_arguments)]
+fn c18_oracle(case: &str, k: usize, target: Handle, op: &Op, outcome: &Outcome, before: &OForest, st: &mut Store, out: &mut Out, stats: &mut Stats) {
+    if !matches!(outcome, Outcome::Ok(_)) {
+        out.fail(case, "rmws-failed", &format!("step {}: `{}` returned {}", k, op_str(op), outcome_str(outcome)));
+        return;
+    }
+    let gone = c18_expected(before, target);
+    stats.add("c18.removed_expected", gone.len() as u64);
+    stats.bump(if gone.is_empty() { "c18.call_removing_nothing" } else { "c18.call_removing_something" });
+    let mut want = before.clone();
+    for h in &gone {
+        if let Some(p) = want.nodes[h].parent {
+            want.nodes.get_mut(&p).unwrap().kids.retain(|x| x != h);
+        }
+        want.nodes.remove(h);
+    }
+    let got = oforest(st);
+    // every node keeps its handle here (text nodes too): nothing may be merged or recreated
+    let all: std::collections::BTreeSet<Handle> = before.nodes.keys().copied().collect();
+    let exact = |f: &OForest| -> Vec<String> {
+        let mut v: Vec<String> = f.nodes.iter().map(|(h, n)| format!("{}:{:?}:{:?}:{:?}", hs(*h), n.val, n.parent.map(hs), n.kids.iter().map(|x| hs(*x)).collect::<Vec<_>>())).collect();
+        v.sort();
+        v
+    };
+    let _ = all;
+    // With consolidation on, removing a node from between two text nodes merges them (the documented contract of
+    // `remove`, C05).  Such neighbours only exist when consolidation was off earlier; then the comparison is made on the
+    // character data: adjacent text nodes merged on both sides, text nodes anonymous.
+    let merged = |f: &OForest| -> Vec<String> {
+        fn node(f: &OForest, h: Handle) -> String {
+            let n = &f.nodes[&h];
+            let mut kids: Vec<String> = vec![];
+            let mut run: Option<String> = None;
+            for k in &n.kids {
+                if let OVal::Text(t) = &f.nodes[k].val {
+                    run = Some(run.unwrap_or_default() + t);
+                } else {
+                    if let Some(t) = run.take() { kids.push(format!("T{:?}", t)); }
+                    kids.push(node(f, *k));
+                }
+            }
+            if let Some(t) = run.take() { kids.push(format!("T{:?}", t)); }
+            let tag = if matches!(n.val, OVal::Text(_)) { "*".to_string() } else { hs(h) };
+            format!("({:?}@{} {})", n.val, tag, kids.join(" "))
+        }
+        let mut v: Vec<String> = f.nodes.iter().filter(|(_, n)| n.parent.is_none()).map(|(h, _)| node(f, *h)).collect();
+        v.sort();
+        v
+    };
+    let lenient = before.cons && want.any_adjacent_text();
+    if lenient { stats.bump("c18.compared_modulo_text_merge"); }
+    let differs = if lenient { merged(&want) != merged(&got) } else { exact(&want) != exact(&got) };
+    if differs {
+        let a = exact(&want);
+        let b = exact(&got);
+        let d = a.iter().find(|x| !b.contains(x)).cloned().or_else(|| b.iter().find(|x| !a.contains(x)).cloned()).unwrap_or_default();
+        out.fail(case, "rmws-wrong-set", &format!("step {}: `{}` should remove exactly {:?}; first difference at {}", k, op_str(op), gone.iter().map(|h| hs(*h)).collect::<Vec<_>>(), d));
+        return;
+    }
+    // a second call changes nothing (checked on a clone of the whole Xot so that the history itself is not disturbed)
+    let mut copy = st.xot.clone();
+    let node = st.known[&target];
+    if !gone.contains(&target) {
+        let before2: Vec<String> = st.roots().iter().map(|r| tree_dump(&copy, st.known[r])).collect();
+        let r = guard(|| copy.remove_insignificant_whitespace(node));
+        let after2: Vec<String> = st.roots().iter().map(|r| tree_dump(&copy, st.known[r])).collect();
+        if r.is_err() || before2 != after2 {
+            out.fail(case, "rmws-not-idempotent", &format!("step {}: a second `{}` changed the tree again", k, op_str(op)));
+        }
+    }
+}
+
+fn tree_dump(xot: &xot::Xot, root: xot::Node) -> String {
+    let mut out = String::new();
+    for e in xot.all_traverse(root) {
+        match e {
+            xot::NodeEdge::Start(n) => { out.push_str(&format!("({}:{:?}", hs(handle(n)), xot.value(n))); }
+            xot::NodeEdge::End(_) => out.push(')'),
+        }
+    }
+    out
+}
+
+/// C18: histories dominated by remove_insignificant_whitespace calls on trees full of white-space-only text, Unicode
+/// spaces and xml:space attributes
+pub fn main_c18() {
+    quiet_panics();
+    let a = args();
+    let mut out = Out::new(&a.out);
+    let mut stats = Stats::default();
+    if let Some(path) = &a.replay {
+        let text = std::fs::read_to_string(path).expect("replay file");
+        for line in text.lines().filter(|l| !l.trim().is_empty()) {
+            replay_line("C18", line, &mut out, &mut stats);
+        }
+        out.finish(&stats);
+        return;
+    }
+    let base = Rng::new(a.seed);
+    let steps = if a.tier == "thorough" { 14 } else { 10 };
+    for k in 0..a.n {
+        let mut r = base.fork(k as u64);
+        let gcfg = GenCfg { max_nodes: 24, max_depth: 5, max_fanout: 4, adjacent_text: k % 3 == 0, empty_text: k % 4 == 0, doc_root: 50, xml_space: 22, ws_text: 55, ..GenCfg::default() };
+        let mut tmp = Store::new();
+        let pool = make_pool(&mut tmp.xot, &mut tmp.reg, true);
+        let ntrees = 1 + r.below(2);
+        let start: Vec<ANode> = (0..ntrees).map(|_| gen_tree(&mut r, &gcfg, &pool)).collect();
+        let cfg = HistCfg { steps, refusal_bias: 10, with_clonep: false, with_rmws: true, rmws_pct: 55 };
+        let case = format!("c{}", k);
+        let init_cons = k % 5 != 4;
+        let (tables, init, ops, obs) = run_history(&case, "C18", &mut r, &start, None, &cfg, &mut out, &mut stats, init_cons);
+        let ops_text: Vec<String> = ops.iter().map(op_str).collect();
+        let line = format!("{} {} | {} | {}", case, tables, init, ops_text.join(";"));
+        out.case(&line);
+        stats.case(&line, ops.iter().any(|o| matches!(o, Op::RemoveWs(_))));
+        stats.sample(&line);
+        out.imp(&format!("{} {}", case, obs));
+    }
+    out.finish(&stats);
 }
